@@ -133,6 +133,9 @@ def _case(arg) -> Dict[str, Any]:
             for e in evs:
                 if e.get("cat") == "cuda_runtime" and isinstance(e.get("dur"), int) and e["dur"] >= 5 and (e["ts"] // 5) % 2 == 0:
                     e["dur"] = e["dur"] - 2.5
+    if seed % 6 == 2:
+        per_rank = gen.wide_narrow_set(seed, **kw)  # rank 1's launch names (cudaLaunchKernelExC, cudaMemcpyAsync) get trace-wide symbol ids beyond 127
+        nr = 2
     if seed % 3 == 0:  # memset launches too
         for evs in per_rank.values():
             for e in evs:
@@ -163,7 +166,9 @@ def _case(arg) -> Dict[str, Any]:
             def num(x):
                 return int(x) if float(x) == int(x) else float(x)  # quarter fractions are exact in binary
 
-            rows = [(int(s), stab[int(nm)], int(c), int(ts), num(file_dur.get(int(i), du))) for i, s, nm, c, ts, du in zip(df["index"], df["stream"], df["name"], df["correlation"], df["ts"], df["dur"])]
+            file_name = {i: e["name"] for i, e in gen.complete_events(per_rank[rk])}  # names too are the file's (a mis-decoded launch name must not vanish from the oracle)
+            rows = [(int(s), file_name.get(int(i), stab[int(nm)] if 0 <= int(nm) < len(stab) else "?"), int(c), int(ts), num(file_dur.get(int(i), du)))
+                    for i, s, nm, c, ts, du in zip(df["index"], df["stream"], df["name"], df["correlation"], df["ts"], df["dur"])]
             exp = []
             for s, nm, c, ts, du in rows:
                 if s == -1 and nm in kinds:
